@@ -161,7 +161,7 @@ def _tam_once(sess, case, s, m, metric, points, target):
         # interior grid points carry rounding in the precision the scores come in (a float32 grid for float32 scores)
         dts = [a_.dtype for a_ in (np.asarray(s.pos), np.asarray(s.neg)) if a_.dtype.kind == "f"]
         eps_ = max([float(np.finfo(d_).eps) for d_ in dts] + [float(np.finfo(float).eps)])  # the extremes may come from the narrower class
-        ok = (gx.shape == exp_pts.shape and bool(np.all(np.abs(gx - exp_pts) <= 4 * eps_ * np.maximum(np.abs(exp_pts), 1.0)))
+        ok = (gx.shape == exp_pts.shape and bool(np.all(np.abs(gx - exp_pts) <= (4 + len(exp_pts)) * eps_ * max(1.0, float(np.abs(exp_pts).max()) if exp_pts.size else 1.0)))  # i * step accumulates rounding along the grid
               and np.array_equal(np.asarray(call["t"]), target))
         if ok and isinstance(points, int):
             # "k evenly spaced points spanning the scores": the end points are the extreme scores themselves (the metric jumps there);
